@@ -117,8 +117,9 @@ hij2mjd(hij_typ_t t, hij_epo_t e, struct ymd_s h)
 		0U, 0U, 30U, 59U, 89U, 118U, 148U, 177U, 207U, 236U, 266U, 295U, 325U
 	};
 	const unsigned int doy = m[h.m] + h.d;
-	const unsigned int cyc = h.y / 30U;
-	const unsigned int k = h.y % 30U;
+	/* count from one cycle down so nothing goes negative for type IV */
+	const unsigned int cyc = h.y / 30U - 1U;
+	const unsigned int k = h.y % 30U + 30U;
 	const unsigned int z1 = cyc * 10631U + (k * 1063100U + tsh[t]) / 3000U + doy;
 	return z1 + epo[e] - 2400000U;
 }
@@ -182,10 +183,12 @@ mjd2hij(hij_typ_t t, hij_epo_t e, mjd_t j)
 {
 /* integer only version of Gent's converter */
 	const unsigned int z = j + 2400000U - epo[e];
-	const unsigned int cyc = z / 10631U;
-	const unsigned int z1 = z % 10631U;
-	const unsigned int k = (3000U * z1 - tsh[t]) / 1063100U - !z1;
-	const unsigned int z2 = z1 - (((int)k * 1063100 + tsh[t]) / 3000) + !z1;
+	/* count from one cycle down so nothing goes negative for type IV
+	 * nor on the last day of a cycle */
+	const unsigned int cyc = z / 10631U - 1U;
+	const unsigned int z1 = z % 10631U + 10631U;
+	const unsigned int k = (3000U * z1 - tsh[t]) / 1063100U;
+	const unsigned int z2 = z1 - (k * 1063100U + tsh[t]) / 3000U;
 	/* output */
 	const unsigned int y = 30U * cyc + k;
 	const unsigned int m = (10000U * z2 + 285001U) / 295000U;
@@ -228,10 +231,10 @@ __hij_inty_p(hij_typ_t t, hij_epo_t UNUSED(e), unsigned int y)
  * type II:  2, 5, 7, 10, 13, 16, 18, 21, 24, 26 & 29 as intercalary years
  * type III: 2, 5, 8, 10, 13, 16, 19, 21, 24, 27 & 29 as intercalary years
  * type IV:  2, 5, 8, 11, 13, 16, 19, 21, 24, 27 & 30 as intercalary years */
-	const unsigned int k = y % 30U;
-	const unsigned int z1 = ((k * 1063100U + tsh[t]) / 3000U + 355U) % 10631U;
-	const unsigned int kr = (3000U * z1 - tsh[t]) / 1063100U - !z1;
-	return z1 - (((int)kr * 1063100 + tsh[t]) / 3000) + !z1 != 1;
+	const unsigned int k = y % 30U + 30U;
+	const unsigned int z1 = (k * 1063100U + tsh[t]) / 3000U + 355U;
+	const unsigned int kr = (3000U * z1 - tsh[t]) / 1063100U;
+	return z1 - (kr * 1063100U + tsh[t]) / 3000U != 1;
 }
 
 static __attribute__((const, pure)) inline unsigned int
